@@ -424,6 +424,25 @@ func goid() string {
 	return ""
 }
 
+// fdStacks returns the stacks of the goroutines that are inside fd.go (diagnostics of a stuck case).
+func fdStacks() string {
+	buf := make([]byte, 1<<22)
+	n := runtime.Stack(buf, true)
+	var out []string
+	for _, g := range strings.Split(string(buf[:n]), "\n\n") {
+		if strings.Contains(g, "resources.(*SingleFailureDetector)") {
+			if len(g) > 700 {
+				g = g[:700]
+			}
+			out = append(out, strings.ReplaceAll(g, "\n", " | "))
+		}
+		if len(out) >= 4 {
+			break
+		}
+	}
+	return strings.Join(out, " ## ")
+}
+
 // waitAccepting waits until the monitor's accept loop is parked inside Accept. On the pinned tree
 // Monitor.Close races with a loop that is between two Accept calls (it resets m.listener, the loop
 // then calls Accept on a nil listener and the process dies; findings/C19.md, closerace mode). The
@@ -449,14 +468,22 @@ func (c *caseRun) waitAccepting() {
 	}
 }
 
+// freePort hands out ports that no other case of this process has been given and that lie outside
+// the kernel's ephemeral range (32768-60999), so that neither another case nor a client socket of
+// another process can own the port while this case's relay listener is deliberately closed (a
+// detector would then talk to a foreign server and never reach a hold point).
+var portCtr atomic.Int64
+
 func freePort() int {
-	l, err := net.Listen("tcp", "127.0.0.1:0")
-	if err != nil {
-		panic(err)
+	for i := 0; i < 12000; i++ {
+		p := 20000 + int((int64(os.Getpid())*977+portCtr.Add(1))%12000)
+		l, err := net.Listen("tcp", "127.0.0.1:"+strconv.Itoa(p))
+		if err == nil {
+			l.Close()
+			return p
+		}
 	}
-	p := l.Addr().(*net.TCPAddr).Port
-	l.Close()
-	return p
+	panic("c19drv: no free port in 20000-31999")
 }
 
 func (c *caseRun) detOf(i int) *det {
@@ -492,7 +519,7 @@ func (c *caseRun) waitHold(d *det, deliberate bool) *hold {
 	select {
 	case h = <-d.events:
 	case <-time.After(watchdog + d.T):
-		c.giveUp("stuck", fmt.Sprintf("detector %d reached no hold point within %v", d.id, watchdog+d.T))
+		c.giveUp("stuck", fmt.Sprintf("detector %d reached no hold point within %v; detector goroutines: %s", d.id, watchdog+d.T, fdStacks()))
 	}
 	if !deliberate {
 		if h.at.Before(d.lastRl) {
